@@ -10,7 +10,7 @@ cp target/debug/jrsonnet /tmp/jrsonnet.base
 for d in /verif/seeded/*/; do
   id=$(basename $d)
   [ -f $d/patch.diff ] || continue
-  [ -n "${1:-}" ] && [ "$id" != "$1" ] && continue
+  [ -n "${1:-}" ] && [[ "$id" != $1 ]] && continue   # $1 may be a glob, e.g. "R4_*"
   out=$d/confirm.txt
   {
     echo "seed $id  base commit $(git rev-parse --short HEAD)"
@@ -19,8 +19,9 @@ for d in /verif/seeded/*/; do
     if cargo build --offline -p jrsonnet >/tmp/confirm_build.log 2>&1; then echo "build: ok"; else echo "build: FAILED"; tail -5 /tmp/confirm_build.log; fi
     echo "suite: $(cargo nextest run --workspace --no-fail-fast --offline --test-threads 8 2>&1 | grep -E 'Summary|^\s+FAIL' | sort -u | tr '\n' ' ')"
     if [ -f $d/demo.jsonnet ]; then
-      echo "demo without the change: $(/tmp/jrsonnet.base $d/demo.jsonnet 2>&1 | tr -d '\n' | cut -c1-300)"
-      echo "demo with the change:    $(target/debug/jrsonnet $d/demo.jsonnet 2>&1 | tr -d '\n' | cut -c1-300)"
+      args=""; [ -f $d/demo.args ] && args="$(cat $d/demo.args)"
+      echo "demo without the change: $(/tmp/jrsonnet.base $args $d/demo.jsonnet 2>&1 | tr -d '\n' | cut -c1-400)"
+      echo "demo with the change:    $(target/debug/jrsonnet $args $d/demo.jsonnet 2>&1 | tr -d '\n' | cut -c1-400)"
     fi
     git checkout -- .
   } > $out 2>&1
